@@ -19,6 +19,25 @@ let run_pos (arg : string) : string =
   | M.BErr _ -> "pos " ^ arg ^ " err"
   | M.BPanic -> "pos " ^ arg ^ " panic"
 
+(* "board n {tag id len}* | k nid {id}* noff {off}*": sequential sends into an empty file, then a read *)
+let run_board (fields : string list) : string =
+  let open Fsm_io in
+  let c = { a = Array.of_list fields; i = 0 } in
+  let n = next_int c in
+  let ms = rep n (fun () -> let tag = next_n c in let id = next_n c in let len = next_z c in ((tag, id), len)) in
+  (match next c with "|" -> () | _ -> failwith "expected |");
+  let k = next_z c in
+  let nid = next_int c in
+  let ids = rep nid (fun () -> next_n c) in
+  let noff = next_int c in
+  let offs = rep noff (fun () -> next_z c) in
+  let f = List.fold_left (fun f m -> M.send_seq M.count_limit f m) [] ms in
+  let offsets = String.concat "," (List.map (fun e -> pz e.M.e_offset) f) in
+  let read = match M.get_messages M.read_limit f k ids offs with
+    | None -> "error"
+    | Some l -> String.concat "," (List.map (fun e -> pn e.M.e_tag) l) in
+  Printf.sprintf "board offsets=%s read=%s" offsets read
+
 let handle (line : string) : string =
   match split line with
   | "root" :: a :: _ -> run_root a
@@ -26,6 +45,7 @@ let handle (line : string) : string =
   | "fsm" :: rest -> Fsm_io.run_fsm rest
   | "mem" :: rest -> Fsm_io.run_mem rest
   | "node" :: rest -> Node_io.run_node rest
+  | "board" :: rest -> run_board rest
   | "skip" :: rest -> "skip " ^ String.concat " " rest
   | [] -> ""
   | k :: _ -> "unknown-case " ^ k
